@@ -158,5 +158,51 @@ pub open spec fn coh(s: &System) -> bool {
         r.is_ok() == final(self).rt.sends@.last().ok,
 //@ end
 
+// ======================= C18: "in a static (read-only) call context no storage or transient-storage write, log, value transfer,
+// contract creation or self-destruct takes effect": every such instruction returns USR_READ_ONLY before touching anything.
+// For log / create / create2 / selfdestruct / call_generic only the statements up to the read-only guard are extracted (prefix
+// extraction); the remainder of each body is an unconstrained stub, so the guard is proved for ANY continuation.
+/// interpreter ExecutionState (stack, memory, return data, ...): opaque here, only its frame matters
+pub struct VxOpaque { pub h: u64 }
+pub struct ExecutionState { pub stack: VxOpaque, pub memory: VxOpaque, pub return_data: VxOpaque, pub other: VxOpaque }
+pub struct Output { pub h: VxOpaque }
+#[derive(Clone, Copy, PartialEq, Eq, Structural)]
+pub enum CallKind { Call, DelegateCall, StaticCall }
+/// everything observable of a System value
+pub open spec fn sys_same(a: &System, b: &System) -> bool {
+    view_eq(view_of(a), view_of(b)) && a.saved_state_root == b.saved_state_root && a.readonly == b.readonly && *a.rt == *b.rt
+        && a.bytecode == b.bytecode && a.current_transient_data_lifespan == b.current_transient_data_lifespan
+}
+//@ fn actors/evm/src/interpreter/instructions/storage.rs sstore sigsub0="System < impl Runtime >=>System"
+    ensures
+        old(system).readonly ==> r.is_err() && r->Err_0.code == 25 && sys_same(old(system), final(system)),
+//@ end
+//@ fn actors/evm/src/interpreter/instructions/storage.rs tstore sigsub0="System < impl Runtime >=>System"
+    ensures
+        old(system).readonly ==> r.is_err() && r->Err_0.code == 25 && sys_same(old(system), final(system)),
+//@ end
+//@ fn actors/evm/src/interpreter/instructions/log_event.rs log sigsub0="System < impl Runtime >=>System" prefix="system . readonly"
+    ensures
+        system.readonly ==> r.is_err() && r->Err_0.code == 25 && *final(state) == *old(state),
+//@ end
+//@ fn actors/evm/src/interpreter/instructions/lifecycle.rs create sigsub0="System < impl Runtime >=>System" prefix="system . readonly"
+    ensures
+        old(system).readonly ==> r.is_err() && r->Err_0.code == 25 && sys_same(old(system), final(system)) && *final(state) == *old(state),
+//@ end
+//@ fn actors/evm/src/interpreter/instructions/lifecycle.rs create2 sigsub0="System < impl Runtime >=>System" prefix="system . readonly"
+    ensures
+        old(system).readonly ==> r.is_err() && r->Err_0.code == 25 && sys_same(old(system), final(system)) && *final(state) == *old(state),
+//@ end
+//@ fn actors/evm/src/interpreter/instructions/lifecycle.rs selfdestruct sigsub0="System < impl Runtime >=>System" prefix="system . readonly" sub0="use crate :: interpreter :: output :: Outcome ;=>"
+    ensures
+        old(system).readonly ==> r.is_err() && r->Err_0.code == 25 && sys_same(old(system), final(system)),
+//@ end
+
+//@ fn actors/evm/src/interpreter/instructions/call.rs call_generic sigsub0="System < Rt >=>System" prefix="system . readonly && value"
+    ensures
+        // "no ... value transfer ... takes effect": a call carrying value from a static context is refused before anything happens
+        old(system).readonly && params.2@ > 0 ==> r.is_err() && r->Err_0.code == 25 && sys_same(old(system), final(system)) && *final(state) == *old(state),
+//@ end
+
 } // verus!
 fn main() {}
